@@ -266,9 +266,17 @@ impl Qcow2Header {
             return Err(format!("qcow2 v{v} is not supported").into());
         }
 
-        // refcount_order is always 4 for version 2
+        // A version 2 header ends after `snapshots_offset` (72 bytes), what follows in
+        // the file are header extensions or unrelated data. The v3 only fields take the
+        // values the spec defines for version 2: refcount_order is always 4, header
+        // length is always 72 and there are no feature bits
         if header.version == 2 {
+            header.incompatible_features = 0;
+            header.compatible_features = 0;
+            header.autoclear_features = 0;
             header.refcount_order = 4;
+            header.header_length = 72;
+            header.compression_type = 0;
         }
 
         let cluster_bits = header.cluster_bits;
